@@ -521,6 +521,14 @@ func (e *Env) call(x *ECall) SVal {
 			e.fail("val() needs a *BigInt")
 		}
 		return iv(e.g.bigVal(e.cur, v.T, v.Ty.Elem))
+	case "negzero":
+		// a math/big value that is zero with its sign flag set (only (big.Int).GCD's cofactors can be)
+		need(1)
+		v := e.eval(args[0])
+		if v.Ty.K != KRef || v.Ty.Elem == nil || !isMathBigInt(v.Ty.Elem) {
+			e.fail("negzero() needs a *big.Int")
+		}
+		return bv(And(e.g.load(e.cur, "MathBig.nz", v.T, SBool), Eq(e.g.load(e.cur, "MathBig.val", v.T, SInt), IntLit(0))))
 	case "backing":
 		need(1)
 		v := e.eval(args[0])
@@ -683,7 +691,9 @@ func (g *Gen) bigRep(st *State, a Term) Term {
 	words := And(Le(IntLit(0), w0), Lt(w0, BigLit(pow2_64)), Le(IntLit(0), w1), Lt(w1, BigLit(pow2_64)))
 	negNonZero := Implies(Eq(in, IntLit(negSentinelAddr)), Not(And(Eq(w0, IntLit(0)), Eq(w1, IntLit(0)))))
 	// heap form: handle is a live (already allocated) math/big object
-	return And(words, negNonZero, Ge(in, IntLit(0)), Lt(in, st.cnt))
+	heap := And(Ne(in, IntLit(0)), Ne(in, IntLit(negSentinelAddr)))
+	noNegZero := Implies(heap, Not(And(g.load(st, "MathBig.nz", in, SBool), Eq(g.load(st, "MathBig.val", in, SInt), IntLit(0)))))
+	return And(words, negNonZero, noNegZero, Ge(in, IntLit(0)), Lt(in, st.cnt))
 }
 
 // ---------------------------------------------------------------- printing
